@@ -84,6 +84,8 @@ pub enum Distribution {
     FlowHash(u64),
     /// arbitrary member per datagram
     Arbitrary,
+    /// members in turn (every member of a group is certain to receive traffic)
+    RoundRobin,
 }
 
 #[derive(Clone, Debug)]
@@ -324,6 +326,7 @@ pub struct TimerObj {
 pub struct Listener {
     pub proc: ProcId,
     pub addr: SocketAddr,
+    pub reuse_port: bool,
     pub queue: VecDeque<ConnId>,
     pub edge: bool,
     pub edge_at: Ns,
@@ -410,6 +413,8 @@ pub struct World {
     spawn_q: Vec<(TaskId, Box<dyn FnOnce()>)>,
     pub next_dgram: u64,
     pub next_port: u16,
+    rr: u64,
+    step_triggers: BTreeMap<u64, Vec<Box<dyn FnOnce()>>>,
     pub steps: u64,
     pub stop: bool,
     pub fault_fired: BTreeMap<&'static str, u64>,
@@ -534,6 +539,8 @@ impl World {
             spawn_q: Vec::new(),
             next_dgram: 1,
             next_port: 40000,
+            rr: 0,
+            step_triggers: BTreeMap::new(),
             steps: 0,
             stop: false,
             fault_fired: BTreeMap::new(),
@@ -662,6 +669,11 @@ impl World {
     /// Schedule `f` to run in scheduler context (no current task) at simulated time `at`.
     pub fn at(&mut self, at: Ns, f: impl FnOnce() + 'static) {
         self.schedule(at, Box::new(f));
+    }
+
+    /// Schedule `f` to run in scheduler context when the scheduler has taken `step` steps.
+    pub fn at_step(&mut self, step: u64, f: impl FnOnce() + 'static) {
+        self.step_triggers.entry(step).or_default().push(Box::new(f));
     }
 
     // ---------------- processes and tasks ----------------
@@ -929,6 +941,10 @@ impl World {
                     group[(h.finish() % group.len() as u64) as usize]
                 }
                 Distribution::Arbitrary => group[self.choose(group.len() as u32) as usize],
+                Distribution::RoundRobin => {
+                    self.rr += 1;
+                    group[self.rr as usize % group.len()]
+                }
             }
         };
         let s = &mut self.socks[pick];
@@ -1067,19 +1083,31 @@ impl World {
     // ---------------- TCP (health check) ----------------
 
     pub fn tcp_listen(&mut self, proc: ProcId, addr: SocketAddr) -> io::Result<ListenId> {
-        let in_use = self.listeners.iter().any(|l| !l.closed && l.addr.port() == addr.port() && (l.addr.ip() == addr.ip() || l.addr.ip().is_unspecified() || addr.ip().is_unspecified()));
+        self.tcp_listen_opts(proc, addr, false)
+    }
+
+    /// Linux semantics: a second listener on an address succeeds only if every listener on it
+    /// (old and new) set SO_REUSEPORT.
+    pub fn tcp_listen_opts(&mut self, proc: ProcId, addr: SocketAddr, reuse_port: bool) -> io::Result<ListenId> {
+        let in_use = self.listeners.iter().any(|l| !l.closed && l.addr.port() == addr.port() && (l.addr.ip() == addr.ip() || l.addr.ip().is_unspecified() || addr.ip().is_unspecified()) && !(reuse_port && l.reuse_port));
         let id = self.listeners.len();
         self.record(Ev::TcpListen { listener: id, proc, addr, ok: !in_use });
         if in_use {
             return Err(io::Error::new(io::ErrorKind::AddrInUse, "Address already in use (os error 98)"));
         }
-        self.listeners.push(Listener { proc, addr, queue: VecDeque::new(), edge: false, edge_at: 0, closed: false });
+        self.listeners.push(Listener { proc, addr, reuse_port, queue: VecDeque::new(), edge: false, edge_at: 0, closed: false });
         Ok(id)
     }
 
     pub fn tcp_connect(&mut self, src: SocketAddr, dst: SocketAddr) -> ConnId {
         let id = self.conns.len();
-        let l = self.listeners.iter().position(|l| !l.closed && l.addr.port() == dst.port() && (l.addr.ip() == dst.ip() || l.addr.ip().is_unspecified()));
+        let group: Vec<usize> = self.listeners.iter().enumerate().filter(|(_, l)| !l.closed && l.addr.port() == dst.port() && (l.addr.ip() == dst.ip() || l.addr.ip().is_unspecified())).map(|(i, _)| i).collect();
+        // a REUSEPORT group of listeners: the kernel picks one member per connection
+        let l = match group.len() {
+            0 => None,
+            1 => Some(group[0]),
+            n => Some(group[self.choose(n as u32) as usize]),
+        };
         self.conns.push(Conn { src, dst, connected_at: self.now, accepted_at: None, accepted_by: None, written: Vec::new(), shutdown_at: None, refused: l.is_none() });
         self.record(Ev::TcpConnect { conn: id, src, dst, refused: l.is_none() });
         if let Some(l) = l {
@@ -1580,6 +1608,21 @@ pub fn run() -> Outcome {
         }
         if with(|w| w.steps >= w.cfg.step_cap) {
             break Outcome::StepCap;
+        }
+
+        // step-count triggers (crash / signal at the k-th scheduling point)
+        let trig = with(|w| {
+            let k = w.step_triggers.keys().next().copied();
+            match k {
+                Some(k) if k <= w.steps => w.step_triggers.remove(&k),
+                _ => None,
+            }
+        });
+        if let Some(fs) = trig {
+            for f in fs {
+                f();
+            }
+            continue;
         }
 
         // due events first
